@@ -374,6 +374,12 @@ func (c11) Run(sc *Scenario) *Verdict {
 				v.Inconclusive = res.Out.Panic
 				return v
 			}
+			if res.Out.Budget {
+				// a huge (exponential) unfolding: whether it is bounded is C04's business, and what
+				// a spelling does to an expansion that does not finish cannot be compared
+				v.Inconclusive = "the call ran into the generic step budget (termination is C04's business)"
+				return v
+			}
 			return v.fail("panic", "spelling %q: %s\n%s", sp, res.Out.Panic, res.Out.Stack)
 		}
 		v.Evals++
@@ -604,6 +610,10 @@ func (c12) Run(sc *Scenario) *Verdict {
 			xerr = spec.ExpandSchemaWithBasePath(sch, nil, &spec.ExpandOptions{RelativeBase: base, PathLoader: loader})
 		})
 		v.Steps += out.Steps
+		if out.Budget {
+			v.Inconclusive = "step budget"
+			continue
+		}
 		if out.Panic != "" {
 			return v.fail("panic", "pair %d base %q ref %q: %s", pi, base, ref, out.Panic)
 		}
